@@ -23,7 +23,8 @@ LEVEL = "exploration"
 SHARDS = {"quick": 16, "thorough": 16}
 FLOOR = {"quick": 100, "thorough": 2000}
 REQUIRED_COUNTERS = ["import_statements_scanned", "files_scanned", "runtime_files_compared", "import_audit_events",
-                     "modules_imported_generator_blocked", "nested_imports_scanned", "typed_map_wrappers_exercised", "stale_core_scenarios"]
+                     "modules_imported_generator_blocked", "nested_imports_scanned", "typed_map_wrappers_exercised", "stale_core_scenarios",
+                     "relative_imports_resolved", "runtime_calls_generator_blocked"]
 RULE = ("C01's document grammar biased towards rarely emitted templates (typed/untyped additionalProperties wrappers, unions, "
         "enums) x 9 layouts; case = (document, layout); non-trivial = accepted, >=1 operation, >=2 schemas joined by a reference")
 ASSUMPTIONS = ["standard library = sys.stdlib_module_names of the probe interpreter (3.12)"]
@@ -58,14 +59,23 @@ def scan_file(path: Path, pkg_top: str, core_top: str, rec, rel: str):
                     yield 0, a.name.split(".")[0], node.lineno, nested
             else:
                 if node.level:
-                    yield node.level, "", node.lineno, nested
+                    # a relative import must land on a module / package that was emitted too
+                    base = path.parent
+                    for _ in range(node.level - 1):
+                        base = base.parent
+                    tgt = base.joinpath(*(node.module.split(".") if node.module else []))
+                    rec.count("relative_imports_resolved")
+                    if not (tgt.with_suffix(".py").exists() or (tgt / "__init__.py").exists()):
+                        yield node.level, "<missing>" + "." * node.level + (node.module or ""), node.lineno, nested
+                    else:
+                        yield node.level, "", node.lineno, nested
                 else:
                     yield 0, (node.module or "").split(".")[0], node.lineno, nested
 
 
 def judge(top: str, level: int, pkg_top: str, core_top: str) -> bool:
     if level:
-        return True
+        return not top.startswith("<missing>")
     return top in sys.stdlib_module_names or top in ALLOWED_THIRD or top in (pkg_top, core_top)
 
 
@@ -127,7 +137,11 @@ def run_batch(ctx: Ctx, batch: list[dict]) -> None:
                     rts.append({"name": name, "prop": pn})
         it["maps"] = rts
     job = {"root": str(root), "packages": [{"pkg": i["pkg"], "core": i["core"] or i["pkg"] + ".core"} for i in accepted],
-           "actions": ["import_all", "models", "exercise_models"]}
+           "actions": ["import_all", "models", "exercise_models", "calls"],
+           # error paths of the copied runtime run too (imports nested in functions only execute when reached)
+           "calls": [{"id": f"{seg}-{i}", "seg": seg, "http": "*", "args": [], "plan": plan}
+                     for seg in ("op1", "op2") for i, plan in enumerate([{"status": 404, "content_hex": ""}, {"status": 500, "text": "boom"},
+                                                                         {"status": 401, "json": {"error": "x"}}, {"status": 200, "json": {}}])]}
     out = genrun.run_probe(job, root / "probe")
     if "probe_error" in out:
         for it in accepted:
@@ -161,6 +175,15 @@ def run_batch(ctx: Ctx, batch: list[dict]) -> None:
             rec.violation("import:needs_generator", ["always"], it["case"], json.dumps(f)[:500])
         # other import failures are C01's business
     for pkgname, po in out["packages"].items():
+        for cid, r in ((po.get("calls") or {}).get("results") or {}).items():
+            exc = ((r.get("outcome") or {}).get("exc") or r.get("exc") or {})
+            if "outcome" in r:
+                rec.count("runtime_calls_generator_blocked")
+            else:
+                rec.seen("runtime_call_errors_diagnostic", str(r.get("error")) + ":" + str((r.get("exc") or {}).get("type")))
+            if exc.get("type") in ("ModuleNotFoundError", "ImportError"):
+                it = tops.get(pkgname.split(".")[0])
+                rec.violation("runtime:import_error_during_call", ["always"], it["case"] if it else {}, json.dumps(exc)[:500])
         ex = po.get("exercise_models") or {}
         rec.count("typed_map_wrappers_exercised", ex.get("wrappers", 0))
         rec.count("models_exercised", ex.get("models", 0))
